@@ -148,6 +148,10 @@ func (k Keeper) LiquidateIndividualVault(ctx sdk.Context, vaultID uint64, liquid
 		if err != nil {
 			return fmt.Errorf("error Creating Locked Vaults in Liquidation, liquidate_vaults.go for Vault %d", vault.Id)
 		}
+		// the auction burns the vault's whole debt (principal, interest and closing fee) and takes all of
+		// it off the product's tokens-minted total at settlement, while only the principal was ever added:
+		// book interest and closing fee into the total here so that settlement leaves the other vaults' principal
+		k.vault.UpdateTokenMintedAmountLockerMapping(ctx, vault.AppId, vault.ExtendedPairVaultID, vault.InterestAccumulated.Add(vault.ClosingFeeAccumulated), true)
 		length := k.vault.GetLengthOfVault(ctx)
 		k.vault.SetLengthOfVault(ctx, length-1)
 
